@@ -1,7 +1,7 @@
 extern crate rand;
 use super::*;
 use crate::error;
-use crate::lang::{Error, Line, LineNumber, MaxValue};
+use crate::lang::{Error, Line, LineNumber};
 use std::collections::HashMap;
 use std::convert::TryFrom;
 use std::ops::{Range, RangeInclusive};
